@@ -217,8 +217,79 @@ def check_reshape(case):
             raise Failure("reshape-row-view", observed=list(row))
 
 
+def _model_apply(model, op):
+    """model = (kind, shape, ids); -> expected (kind, shape, ids) | ('IndexError',) | ('ValueError',) | either"""
+    kind, shape, ids = model
+    if op[0] == "flatten":
+        return ("1d", [len(ids)], list(ids))
+    if op[0] == "reshape":
+        h2, w2 = op[1]
+        if h2 * w2 != len(ids):
+            return ("ValueError",)
+        return ("2d", [h2, w2], list(ids))
+    key = dec_key(op[1])
+    try:
+        if kind == "1d":
+            isint, pos = axis_select(shape[0], key)
+            exp = ("scalar", None, pos[0]) if isint else ("1d", [len(pos)], pos)
+        else:
+            exp = expected_2d(shape[0], shape[1], key)
+    except IndexError:
+        return ("IndexError",)
+    if exp[0] == "either-empty-or-indexerror":
+        return exp
+    if exp[0] == "scalar":
+        return ("scalar", None, ids[exp[2]])
+    return (exp[0], exp[1], [ids[p_] for p_ in exp[2]])
+
+
+def check_history(case):
+    """a pool of arrays derived from one another (index / slice / coordinate list / reshape / flatten);
+    every step is applied to a pool member chosen by the case - also to members that were already used -
+    and its result must be what the nested-list model of THAT member says.  case['steps'] =
+    [[pool index, op], ...] with op = ['index', key] | ['reshape', [h, w]] | ['flatten']"""
+    kind, h, w, elem = case["kind"], case["h"], case["w"], case["elem"]
+    arr = make_array(kind, h, w, elem)
+    n = h if kind == "1d" else h * w
+    pool = [(arr, (kind, [h] if kind == "1d" else [h, w], list(range(n))))]
+    for si, (pi, op) in enumerate(case["steps"]):
+        a, model = pool[pi % len(pool)]
+        if op[0] == "index" and model[0] == "1d" and not isinstance(op[1], int) and "s" not in op[1]:
+            continue  # pair keys and coordinate lists belong to 2-D arrays only
+        if op[0] == "flatten" and model[0] == "1d":
+            continue  # 1-D arrays have no flatten()
+        exp = _model_apply(model, op)
+        try:
+            if op[0] == "flatten":
+                res = a.flatten()
+            elif op[0] == "reshape":
+                res = a.reshape(tuple(op[1]))
+            else:
+                res = a[dec_key(op[1])]
+            obs = ids_of(res)
+        except IndexError:
+            obs, res = ("IndexError",), None
+        except ValueError:
+            obs, res = ("ValueError",), None
+        except Failure:
+            raise
+        except Exception as e:
+            obs, res = ("exception", type(e).__name__), None
+        if exp[0] == "either-empty-or-indexerror":
+            if obs == ("IndexError",) or (obs[0] in ("1d", "2d") and obs[2] == []):
+                continue
+        elif list(obs) == list(exp):
+            if obs[0] in ("1d", "2d"):
+                pool.append((res, (obs[0], obs[1], obs[2])))
+            continue
+        raise Failure("history|%s-after-%d-steps|%s" % (op[0], min(si, 3), model[0]), observed=list(obs)[:3],
+                      expected=list(exp)[:3], detail=dict(step=si))
+
+
 def body(case):
-    if case.get("op", "index") == "index":
+    if "steps" in case:
+        check_history(case)
+    elif case.get("op", "index") == "index":
         check_index(case)
     else:
         check_reshape(case)
@@ -404,6 +475,72 @@ def case_strategy(max_side):
     return c()
 
 
+def history_strategy(max_side):
+    from hypothesis import strategies as st
+
+    def sl(size):
+        b = st.one_of(st.none(), st.integers(-size - 2, size + 2))
+        stp = st.one_of(st.none(), st.sampled_from([1, -1, 2, -2, 3]))
+        return st.builds(enc_slice, b, b, stp)
+
+    def key(size):
+        return st.one_of(st.integers(-size, size - 1) if size else st.just(0), sl(size), sl(size))
+
+    @st.composite
+    def c(draw):
+        h = draw(st.integers(1, max_side))
+        w = draw(st.integers(1, max_side))
+        elem = draw(st.sampled_from(["bool", "int"]))
+        kind = draw(st.sampled_from(["2d", "2d", "2d", "1d"]))
+        n = h if kind == "1d" else h * w
+        facts = [[a, n // a] for a in range(1, n + 1) if n % a == 0]
+        steps = []
+        for _ in range(draw(st.integers(2, 7))):
+            which = draw(st.integers(0, 9))
+            pi = draw(st.integers(0, 7))
+            if which <= 1:
+                op = ["flatten"]
+            elif which <= 4:
+                # mostly a factorisation of the root size (derived members of the same size accept it too)
+                op = ["reshape", draw(st.sampled_from(facts)) if draw(st.integers(0, 5)) else
+                      [draw(st.integers(0, max_side)), draw(st.integers(0, max_side))]]
+            elif which <= 6:
+                op = ["index", draw(key(max(h, w)))]
+            elif which == 7:
+                pts = draw(st.lists(st.tuples(st.integers(-2, max_side - 1), st.integers(-2, max_side - 1)), max_size=4))
+                op = ["index", {"l": [list(p_) for p_ in pts]}]
+            else:
+                op = ["index", {"t": [draw(key(h)), draw(key(w))]}]
+            steps.append([pi, op])
+        return dict(kind=kind, h=h, w=w, elem=elem, steps=steps)
+
+    return c()
+
+
+def history_shard(arg):
+    seed, n, max_side = arg
+    st = Stats()
+
+    def b(case):
+        ops = [s_[1][0] for s_ in case["steps"]]
+        nt = "reshape" in ops and "index" in ops
+        st.case(canon=case, nontrivial=nt, classes=["history"] + (["history:index-then-reshape-then-index"] if _irx(ops) else []),
+                sample=case if nt else None)
+        body(case)
+
+    hyp_search(st, history_strategy(max_side), b, seed=seed, max_examples=n, check="c13.history")
+    return st
+
+
+def _irx(ops):
+    try:
+        i = ops.index("index")
+        j = ops.index("reshape", i + 1)
+        return "index" in ops[j + 1:]
+    except ValueError:
+        return False
+
+
 def hyp_shard(arg):
     seed, n, max_side = arg
     st = Stats()
@@ -458,8 +595,11 @@ def run(ctx):
     k = 4 if quick else 16
     for r in pmap(hyp_shard, [(ctx.seed * 1000 + i, n_h, 6 if i % 2 else 4) for i in range(k)]):
         ctx.stats.merge(r)
+    for r in pmap(history_shard, [(ctx.seed * 1000 + 50 + i, 1500 if quick else 20000, 4 if i % 2 else 6) for i in range(k)]):
+        ctx.stats.merge(r)
     ctx.exhaustive = False
     cl = ctx.stats.classes
+    ctx.floor("histories with index, then reshape, then index", cl["history:index-then-reshape-then-index"], 300)
     tot = max(1, ctx.stats.evaluations)
     ctx.floor("share of non-trivial keys", ctx.stats.distinct_nontrivial / tot, 0.40)
     ctx.floor("negative-step keys", sum(v for k_, v in cl.items() if "negstep" in k_), 1000)
